@@ -154,7 +154,7 @@ def format_outcome(
             out_len = len(out)
 
         if len(out) < out_len:
-            out += [False] * (out_len - len(out))
+            out = out + [False] * (out_len - len(out))  # a new list: the caller's is not extended
 
         return out
     raise Exception(f"Invalid format: {out}")
